@@ -34,6 +34,7 @@ def run(chk: Check) -> None:
     run_bypass_sites(chk, ix)
     from .c10 import run_only_once_slot
     run_only_once_slot(chk, ix, "R13.10")
+    run_notes_carry_code(chk, ix)
     aei = ix.func("mypy.errors.Errors.add_error_info")
     g = CFG(aei.node)
 
@@ -561,3 +562,32 @@ def run_bypass_sites(chk: Check, ix) -> None:
                 r9.violation(key2, f.loc(c), f"the guard `{norm(cond)[:140]}` is false even with {code} explicitly enabled and every other atom true")
     if n_sites < len(gens):
         raise AnalysisError(f"only {n_sites} call sites of {sorted(gens)} found")
+
+
+def run_notes_carry_code(chk: Check, ix) -> None:
+    """R13.11: a note that explains a coded error carries that code."""
+    r11 = chk.rule("R13.11", "a note reported without `code=` / `parent_error=` gets the code `misc`; where a function reports errors only with an explicit code, the notes it reports next to them carry a code too (the error's), because an ignore comment or a disabled code removes diagnostics by code: an un-coded note survives the suppression of the error it explains, and a second note then complains that `misc` is not covered", floor=20)
+    n = 0
+    for q, f in sorted(ix.functions.items()):
+        mn = f.module.name
+        if f.parent is not None or not mn.startswith("mypy.") or ".test" in mn or mn.startswith(("mypy.stub", "mypy.dmypy")):
+            continue
+        calls = [c for c in ast.walk(f.node) if isinstance(c, ast.Call) and isinstance(c.func, ast.Attribute)]
+        fails = [c for c in calls if c.func.attr == "fail"]
+        notes = [c for c in calls if c.func.attr in ("note", "note_multiline")]
+        if not fails or not notes:
+            continue
+        coded = [c for c in fails if any(k.arg == "code" and not (isinstance(k.value, ast.Constant) and k.value.value is None) for k in c.keywords)]
+        if len(coded) != len(fails):
+            continue  # the function also reports errors without an explicit code (they are `misc` themselves)
+        codes_used = sorted({norm(next(k.value for k in c.keywords if k.arg == "code")) for c in coded})
+        for nt in notes:
+            n += 1
+            kws = {k.arg for k in nt.keywords}
+            key = f"{q}: note `{norm(nt.args[0])[:50] if nt.args else ''}` next to {codes_used} errors carries a code"
+            if {"code", "parent_error"} & kws:
+                r11.ok(key, f.loc(nt))
+            else:
+                r11.violation(key, f.loc(nt), f"the function reports its errors with code {codes_used} and this note with none (so `misc`): `# type: ignore[{codes_used[0].split('.')[-1].lower().replace('_', '-')}]` removes the error and leaves the note")
+    if n < 20:
+        raise AnalysisError(f"only {n} notes next to coded errors found")
